@@ -2,7 +2,7 @@
 # Build MIR facts for /repo's current working tree -> $1 (facts.json). Fails closed.
 set -u
 OUT="$1"
-VERIF=/verif
+VERIF=$(cd "$(dirname "$0")/.." && pwd)
 REPO=${VERIF_REPO:-/repo}
 DRV=$VERIF/mirfacts/target/debug/mirfacts
 export CARGO_NET_OFFLINE=true
